@@ -63,9 +63,9 @@ Proof.
   - unfold regex_p. rewrite H5. reflexivity.
 Qed.
 
-Lemma phrase_leaf astp leafp q body rest :
+Lemma phrase_leaf rej astp leafp q body rest :
   wf_body q body = true -> follow_ok rest = true ->
-  leaf_body astp leafp (quote_char q :: body ++ quote_char q :: rest)
+  leaf_body rej astp leafp (quote_char q :: body ++ quote_char q :: rest)
   = ROk (Leaf (LLit None body (quote_delim q) 0 false)) rest.
 Proof.
   intros Hb Hr.
@@ -87,7 +87,7 @@ Proof.
     unfold SQ in Ht. rewrite Ht. reflexivity.
 Qed.
 
-Lemma leaf_fail_end astp leafp rest : end_ok rest = true -> leaf_body astp leafp rest = RFail.
+Lemma leaf_fail_end rej astp leafp rest : end_ok rest = true -> leaf_body rej astp leafp rest = RFail.
 Proof.
   destruct rest as [|c t]; [reflexivity|]. cbn [end_ok]. intros H. apply N.eqb_eq in H. subst c.
   unfold leaf_body. unfold_chars; ncmp; cbn [andb strip_prefix]; ncmp.
@@ -388,18 +388,18 @@ Proof.
   destruct (IH ltac:(lia)) as [Hx Hr]. split; [exact Hx|constructor; [lia|exact Hr]].
 Qed.
 
-Lemma print_parse_gen n : forall c, (cdepth c <= n)%nat -> pf c = true ->
+Lemma print_parse_gen rej n : forall c, (cdepth c <= n)%nat -> pf c = true ->
   (is_seq c = false -> forall fuel rest, (cdepth c <= fuel)%nat -> follow_ok rest = true ->
-     gp fuel false (print c ++ rest) = ROk (norm c) rest) /\
+     gp_s rej fuel false (print c ++ rest) = ROk (norm c) rest) /\
   (is_seq c = true -> forall fuel rest, (cdepth c <= fuel)%nat -> end_ok rest = true ->
-     gp fuel true (print c ++ rest) = ROk (norm c) rest).
+     gp_s rej fuel true (print c ++ rest) = ROk (norm c) rest).
 Proof.
   induction n as [|n IH]; intros c Hd Hpf; [pose proof (cdepth_pos c); lia|].
   destruct c as [[[fn fw]|] l| |q| | | |lead o1 x1 rest trail]; cbn [pf] in Hpf; try discriminate.
   - (* phrase *)
     destruct l as [| |q b sp| | | |]; try discriminate. destruct sp; try discriminate.
     split; [|discriminate]. intros _ fuel rest Hf Hr. cbn [cdepth] in Hf. destruct fuel as [|f]; [lia|].
-    cbn [gp print print_leaf norm norm_leaf option_map].
+    cbn [gp_s print print_leaf norm norm_leaf option_map].
     replace ((([] ++ quote_char q :: b ++ [quote_char q] ++ []) ++ rest)) with (quote_char q :: b ++ quote_char q :: rest)
       by (cbn [app]; repeat rewrite app_nil_r; repeat rewrite <- app_assoc; reflexivity).
     apply phrase_leaf; assumption.
@@ -407,7 +407,7 @@ Proof.
     apply andb_true_iff in Hpf as [Hs Hq]. cbn [cdepth] in Hd.
     split; [|discriminate]. intros _ fuel rest Hf Hr. cbn [cdepth] in Hf. destruct fuel as [|f]; [lia|].
     destruct (IH q ltac:(lia) Hq) as [_ Hseq].
-    cbn [gp print norm]. unfold leaf_body. cbn [app]. unfold_chars. ncmp.
+    cbn [gp_s print norm]. unfold leaf_body. cbn [app]. unfold_chars. ncmp.
     rewrite <- app_assoc. cbn [app].
     rewrite (Hseq Hs f (41 :: rest) ltac:(lia) eq_refl). ncmp. reflexivity.
   - (* sequence *)
@@ -415,8 +415,8 @@ Proof.
     destruct (pf_seq_inv _ _ _ _ _ Hpf) as (Hlead & Ho & Hns & Hx & Hm & Ht).
     destruct (cdepth_seq_inv _ _ _ _ _ _ Hd) as [Hdx Hdr].
     destruct (cdepth_seq_inv _ _ _ _ _ _ Hf) as [Hfx Hfr].
-    cbn [gp]. apply ast_seq_ok; try assumption.
-    + intros t Het. pose proof (cdepth_pos x1). destruct f as [|f']; [lia|]. cbn [gp]. now apply leaf_fail_end.
+    cbn [gp_s]. apply ast_seq_ok; try assumption.
+    + intros t Het. pose proof (cdepth_pos x1). destruct f as [|f']; [lia|]. cbn [gp_s]. now apply leaf_fail_end.
     + intros r Hr. destruct (IH x1 Hdx Hx) as [Hatom _]. now apply Hatom.
     + clear - IH Hm Hdr Hfr. induction rest as [|m r IHr]; [constructor|].
       inversion Hm; inversion Hdr; inversion Hfr; subst. constructor; [|now apply IHr].
@@ -469,11 +469,12 @@ Proof.
 Qed.
 
 (* print / parse round trip: every concrete query of the fragment, under every layout *)
-Theorem print_parse c :
-  pf c = true -> is_seq c = true -> parse_raw (print c) = Ok (norm c) /\ parse_ref (print c) = Ok (norm_top c).
+Theorem print_parse_s rej c :
+  pf c = true -> is_seq c = true ->
+  parse_raw_s rej (print c) = Ok (norm c) /\ parse_ref_s rej (print c) = Ok (norm_top c).
 Proof.
   intros Hpf Hs.
-  assert (Hraw : parse_raw (print c) = Ok (norm c)).
+  assert (Hraw : parse_raw_s rej (print c) = Ok (norm c)).
   { destruct c as [| | | | | |lead o1 x1 rest trail]; try discriminate.
     destruct (pf_seq_inv _ _ _ _ _ Hpf) as (Hlead & Ho & Hns & Hx & Hm & Ht).
     set (c' := CSeq [] o1 x1 rest trail).
@@ -484,14 +485,17 @@ Proof.
       destruct (atom_head x1 Hx Hns) as (ch & t & Hp & Hc).
       destruct o1 as [[]|]; try discriminate; cbn [occ_str app]; try reflexivity.
       rewrite Hp. cbn [app]. apply nms_head. destruct Hc as [-> | [-> | ->]]; auto 10. }
-    unfold parse_raw. rewrite Hskip.
-    destruct (print_parse_gen (cdepth c') c' (le_n _) Hpf') as [_ Hseq].
+    unfold parse_raw_s. rewrite Hskip.
+    destruct (print_parse_gen rej (cdepth c') c' (le_n _) Hpf') as [_ Hseq].
     destruct (depth_len (cdepth (CSeq lead o1 x1 rest trail)) _ (le_n _) Hpf) as [_ Hlen]. specialize (Hlen eq_refl).
     assert (Hfuel : (cdepth c' <= ref_fuel (print (CSeq lead o1 x1 rest trail)))%nat).
     { unfold ref_fuel. change (cdepth c') with (cdepth (CSeq lead o1 x1 rest trail)). lia. }
     specialize (Hseq eq_refl _ [] Hfuel eq_refl). rewrite app_nil_r in Hseq. rewrite Hseq. reflexivity. }
-  split; [exact Hraw|]. unfold parse_ref. rewrite Hraw. reflexivity.
+  split; [exact Hraw|]. unfold parse_ref_s. rewrite Hraw. reflexivity.
 Qed.
+Theorem print_parse c :
+  pf c = true -> is_seq c = true -> parse_raw (print c) = Ok (norm c) /\ parse_ref (print c) = Ok (norm_top c).
+Proof. exact (print_parse_s rejects_bare_exists c). Qed.
 
 (* non-vacuity: +"a b" AND ( 'c' OR "d" )   with assorted whitespace *)
 Example print_parse_example :
@@ -501,3 +505,80 @@ Example print_parse_example :
                          [([13;32], Some Or, [], Some MustNot, CLit None (CPhrase QD [100] SNone))] [32]))] [9] in
   pf c = true /\ is_seq c = true /\ wf c = true /\ parse_ref (print c) = Ok (norm_top c).
 Proof. vm_compute. repeat split; reflexivity. Qed.
+
+(* ------------------------------------------------------------------ no panic under the pinned shape *)
+Definition np {A} (r : res A) : Prop := r <> RAbort Panic.
+Ltac brk :=
+  repeat match goal with
+         | |- np (match ?x with _ => _ end) => destruct x eqn:?
+         | |- np (if ?x then _ else _) => destruct x eqn:?
+         | |- np (let (_, _) := ?x in _) => destruct x eqn:?
+         end.
+
+Section NoPanic.
+  Variable astp leafp : str -> res uast.
+  Hypothesis Hast : forall s, np (astp s).
+  Hypothesis Hleaf : forall s, np (leafp s).
+
+  Lemma term_group_np s : np (term_group astp s).
+  Proof.
+    unfold term_group. brk; try (unfold np; congruence).
+    all: match goal with H : astp ?t = RAbort ?k |- _ => pose proof (Hast t) as Hn; rewrite H in Hn; unfold np in *; congruence end.
+  Qed.
+  Lemma literal_np s : np (literal true astp s).
+  Proof.
+    unfold literal. brk; try (unfold np; congruence); apply term_group_np.
+  Qed.
+  Lemma leaf_body_np s : np (leaf_body true astp leafp s).
+  Proof.
+    unfold leaf_body. brk; try (unfold np; congruence); try apply literal_np.
+    all: try match goal with H : astp ?t = RAbort ?k |- _ => pose proof (Hast t) as Hn; rewrite H in Hn; unfold np in *; congruence end.
+    all: try match goal with H : leafp ?t = RAbort ?k |- _ => pose proof (Hleaf t) as Hn; rewrite H in Hn; unfold np in *; congruence end.
+  Qed.
+
+  Lemma boosted_leaf_np s : np (boosted_leaf leafp s).
+  Proof.
+    unfold boosted_leaf. brk; try (unfold np; congruence).
+    all: try match goal with H : leafp ?t = RAbort ?k |- _ => pose proof (Hleaf t) as Hn; rewrite H in Hn; unfold np in *; congruence end.
+  Qed.
+  Lemma occur_leaf_np s : np (occur_leaf leafp s).
+  Proof.
+    unfold occur_leaf. brk; try (unfold np; congruence).
+    all: try match goal with H : boosted_leaf leafp ?t = RAbort ?k |- _ => pose proof (boosted_leaf_np t) as Hn; rewrite H in Hn; unfold np in *; congruence end.
+  Qed.
+  Lemma operand_leaf_np s : np (operand_leaf leafp s).
+  Proof.
+    unfold operand_leaf. brk; try (unfold np; congruence).
+    all: try match goal with H : occur_leaf leafp ?t = RAbort ?k |- _ => pose proof (occur_leaf_np t) as Hn; rewrite H in Hn; unfold np in *; congruence end.
+  Qed.
+  Lemma many_operands_np n : forall s, np (many_operands leafp n s).
+  Proof.
+    induction n as [|n IH]; intros s; cbn [many_operands]; [unfold np; congruence|].
+    brk; try (unfold np; congruence).
+    all: try match goal with H : many_operands leafp _ ?t = RAbort ?k |- _ => pose proof (IH t) as Hn; rewrite H in Hn; unfold np in *; congruence end.
+    all: try match goal with H : operand_leaf leafp ?t = RAbort ?k |- _ => pose proof (operand_leaf_np t) as Hn; rewrite H in Hn; unfold np in *; congruence end.
+  Qed.
+  Lemma ast_body_np s : np (ast_body leafp s).
+  Proof.
+    unfold ast_body. brk; try (unfold np; congruence).
+    all: try match goal with H : many_operands leafp ?n ?t = RAbort ?k |- _ => pose proof (many_operands_np n t) as Hn; rewrite H in Hn; unfold np in *; congruence end.
+    all: try match goal with H : occur_leaf leafp ?t = RAbort ?k |- _ => pose proof (occur_leaf_np t) as Hn; rewrite H in Hn; unfold np in *; congruence end.
+  Qed.
+End NoPanic.
+
+Lemma gp_np fuel : forall b s, np (gp_s true fuel b s).
+Proof.
+  induction fuel as [|f IH]; intros b s; cbn [gp_s]; [unfold np; congruence|].
+  destruct b; [apply ast_body_np|apply leaf_body_np]; intros t; apply IH.
+Qed.
+
+(* under the shape in which `literal` rejects an exists-leaf without field, the strict grammar model
+   never panics -- for every string *)
+Theorem no_panic_rejecting s : parse_ref_s true s <> Panicked.
+Proof.
+  unfold parse_ref_s, parse_raw_s. pose proof (gp_np (ref_fuel s) true (skip_ms s)) as H. unfold np in H.
+  destruct (gp_s true (ref_fuel s) true (skip_ms s)) as [a [|c r]| |[]]; try discriminate; try congruence.
+  destruct (is_nil (skip_ms s)); discriminate.
+Qed.
+Theorem no_panic_pinned : rejects_bare_exists = true -> forall s, parse_ref s <> Panicked.
+Proof. intros H s. unfold parse_ref. rewrite H. apply no_panic_rejecting. Qed.
